@@ -17,7 +17,7 @@ EXPLANATION = (
     "found injections), then for every component and mode get_injection_requests(hints, name, instance) -> find_injections -> "
     "instance.__dict__.update(found), all before any setup(); requests are computed per instance, also when several components share "
     "one class; _collect_injectables offers exactly the robot attributes that are public, not excluded, not properties/tunables and "
-    "not bound methods, as the objects themselves.  C08.O5 constructor and attribute injection use the same two functions.  _collect_injectables offers every plain public attribute of the robot class that is not in the documented exclusion list (named plain attributes such as control_loop_wait_time included); a name filter other than the exclusion list must not drop one."
+    "not bound methods, as the objects themselves.  C08.O5 constructor and attribute injection use the same two functions.  _collect_injectables offers every plain public attribute of the robot class that is not in the documented exclusion list (named plain attributes such as control_loop_wait_time included); a name filter other than the exclusion list must not drop one.  find_injections does not modify the injectables map it is given (it is shared by all components); an attribute preset on a base class of the component is not requested."
 )
 RULE = "one case = one path of find_injections / get_injection_requests / _collect_injectables / _create_components"
 EXHAUSTIVE = True
@@ -74,6 +74,9 @@ def check(ctx):
     ctx.add("paths", len(paths))
     ctx.floor("paths of find_injections", len(paths), 5)
     kinds = set()
+    # the injectables map is shared by all components and modes: find_injections only reads it
+    writes = [e for p in paths for e in p.trace if e.kind == "user" and e.name.startswith("injectables.") and e.name.rsplit(".", 1)[-1] in ("__setitem__", "__delitem__", "update", "pop", "setdefault", "clear", "popitem")]
+    ctx.require(not writes, "C08.O1", "find_injections does not modify the injectables map it is given", f"find_injections writes into the shared injectables map ({writes[0].name if writes else ''}): what one component resolves leaks into the lookups of the components processed after it", site=writes[0].site if writes else site1, key="C08.O1|write")
     for p in paths:
         atoms = [(a, v) for a, v, _ in p.path]
         desc = "; ".join(f"{a[0]}({str(a[-1])[-40:]})={v}" for a, v in atoms)
